@@ -29,11 +29,11 @@ from gen import HEADER, lean_str, lean_list
 
 FUNCS = {
     'Array.c': ['Array_Get', 'Array_Set', 'Array_Mem', 'Array_Rem', 'Array_Push', 'Array_Push_At', 'Array_Pop', 'Array_Pop_At',
-                'Array_Resize', 'Array_Concat', 'Array_Assign', 'Array_Clear'],
+                'Array_Resize', 'Array_Concat', 'Array_Assign', 'Array_Clear', 'Array_Sort_Partition', 'Array_Sort_Part', 'Array_Sort_By'],
     'List.c': ['List_At', 'List_Get', 'List_Set', 'List_Mem', 'List_Rem', 'List_Push', 'List_Push_At', 'List_Pop', 'List_Pop_At',
                'List_Resize', 'List_Concat', 'List_Assign', 'List_Clear'],
     'Tuple.c': ['Tuple_Get', 'Tuple_Set', 'Tuple_Mem', 'Tuple_Rem', 'Tuple_Push', 'Tuple_Push_At', 'Tuple_Pop', 'Tuple_Pop_At',
-                'Tuple_Resize', 'Tuple_Concat', 'Tuple_Assign'],
+                'Tuple_Resize', 'Tuple_Concat', 'Tuple_Assign', 'Tuple_Sort_Partition', 'Tuple_Sort_Part', 'Tuple_Sort_By'],
     'Table.c': ['Table_Get', 'Table_Set', 'Table_Set_Move', 'Table_Mem', 'Table_Rem', 'Table_Resize', 'Table_Assign'],
     'Tree.c': ['Tree_Get', 'Tree_Set', 'Tree_Mem', 'Tree_Rem', 'Tree_Resize', 'Tree_Assign'],
     'String.c': ['String_Mem', 'String_Rem', 'String_Resize', 'String_Concat', 'String_Assign', 'String_Format_To'],
@@ -41,16 +41,21 @@ FUNCS = {
     'Type.c': ['Type_Of', 'cast', 'Type_Method_At_Offset'],
     'Alloc.c': ['dealloc'],
     'Assign.c': ['assign'],
+    'Show.c': ['print_to_with'],
 }
+# functions whose CELLO_MEMORY_CHECK regions are extracted as well (`memoryProfile`): where the NULL test of an allocation sits
+# relative to the writes through the new pointer
+MEMORY_FUNCS = {'String.c': ['String_Resize']}
 
 # calls that validate their arguments and can raise (nothing of the target object is written by them)
 CHECKS = ['c_int', 'c_str', 'c_float', 'cast', 'len', 'get', 'eq', 'neq', 'cmp', 'hash', 'mem', 'instance', 'type_instance',
           'type_of', 'Type_Instance', 'implements_method', 'type_implements_method', 'implements', 'type_implements',
-          'iter_type', 'key_type', 'val_type', 'copy', 'iter_init', 'iter_next']
+          'iter_type', 'key_type', 'val_type', 'copy', 'iter_init', 'iter_next',
+          'f']          # the comparison handed to `*_Sort_Partition` (`lt`: `cmp` of two elements)
 # calls that modify the target object (or memory it owns); pure allocators of fresh memory (malloc, calloc, List_Alloc,
 # Tree_Alloc) are not mutations of the object — the store that links the new block in is
 MUTS = ['memmove', 'memcpy', 'memset', 'realloc', 'free', 'destruct', 'construct_with', 'construct', 'swap', 'del',
-        'strcpy', 'strcat', 'strncpy',
+        'strcpy', 'strcat', 'strncpy', 'Tuple_Swap', 'format_to', 'show_to',
         'Array_Alloc', 'Array_Reserve_More', 'Array_Reserve_Less',
         'List_Free', 'List_Link', 'List_Unlink',
         'Table_Rehash', 'Table_Clear', 'Table_Resize_More', 'Table_Resize_Less',
@@ -68,11 +73,13 @@ STORE_INDEX = re.compile(r'(?<![\w>.])(\w+|\))\s*\[[^\]]*\]\s*((?:[-+*/|&^])?=(?
 def norm(s):
     return re.sub(r'\s+', ' ', s).strip()
 
+KEEP_MEMORY_CHECK = [False]     # set while `memoryProfile` is extracted
+
 def cond_value(t):
     """value of a preprocessor condition on the configuration the check runs (Linux, default build, all checks on);
-    the OutOfMemoryError regions are dropped on purpose (C12 does not cover allocation failure)"""
+    the OutOfMemoryError regions are dropped on purpose (C12 does not cover allocation failure) — except for `memoryProfile`"""
     m = re.match(r'(CELLO_\w+_CHECK)\s*==\s*1$', t)
-    if m: return m.group(1) != 'CELLO_MEMORY_CHECK'
+    if m: return KEEP_MEMORY_CHECK[0] or m.group(1) != 'CELLO_MEMORY_CHECK'
     m = re.match(r'defined\s*\(?\s*(\w+)\s*\)?$', t)
     if m and m.group(1) in ('CELLO_WINDOWS', 'CELLO_MAC', '_WIN32', '__APPLE__'): return False
     if m and m.group(1) in ('CELLO_UNIX', 'CELLO_LINUX', '__unix__'): return True
@@ -230,6 +237,15 @@ def gen_fail(repo):
         for f in funcs:
             rows.append((f, profile_of(src, f)))       # func_body raises ExtractError when the function is gone
     body = ',\n  '.join(f'({lean_str(f)}, {lean_list([lean_tok(t) for t in toks])})' for f, toks in rows)
+    mrows = []
+    KEEP_MEMORY_CHECK[0] = True
+    try:
+        for fname, funcs in MEMORY_FUNCS.items():
+            src = read(f'{repo}/src/{fname}')
+            for f in funcs: mrows.append((f, profile_of(src, f)))
+    finally:
+        KEEP_MEMORY_CHECK[0] = False
+    mbody = ',\n  '.join(f'({lean_str(f)}, {lean_list([lean_tok(t) for t in toks])})' for f, toks in mrows)
     return HEADER + f"""namespace CelloGen.Fail
 
 /-- kinds of profile tokens: `if (cond)` / `else` / end of block / loop header / `return` / `throw(E, …)` / a validating call that
@@ -243,6 +259,11 @@ deriving DecidableEq, Repr, Inhabited
     control structure (translate/g_fail.py; Linux default build, OutOfMemoryError regions dropped) -/
 def profile : List (String × List (K × String)) := [
   {body}]
+
+/-- the same token lists with the `#if CELLO_MEMORY_CHECK == 1` regions kept (the OutOfMemoryError paths), for the functions whose
+    NULL test of an allocation the model's `Str.resizeOom` depends on -/
+def memoryProfile : List (String × List (K × String)) := [
+  {mbody}]
 
 end CelloGen.Fail
 """
